@@ -52,6 +52,11 @@ type FuncContract struct {
 	Pure       bool
 	Line       string
 	Ghost      []string
+	Appends    []*AppendClause
+}
+
+type AppendClause struct {
+	Buf, N *Clause
 }
 
 type SpecFunc struct {
@@ -291,6 +296,18 @@ func (db *ContractDB) parseFile(pkg, file string) {
 				curF.AllocBound = mkClause(rest)
 			case "own":
 				curF.Own = append(curF.Own, rest)
+			case "flag":
+				curF.Ghost = append(curF.Ghost, strings.Fields(rest)...)
+			case "appends":
+				parts := splitTop(rest, ',')
+				if len(parts) != 2 {
+					db.errf(ln, "appends <buffer>, <n>")
+					continue
+				}
+				b, n := mkClause(strings.TrimSpace(parts[0])), mkClause(strings.TrimSpace(parts[1]))
+				if b != nil && n != nil {
+					curF.Appends = append(curF.Appends, &AppendClause{b, n})
+				}
 			default:
 				db.errf(ln, "unknown clause keyword %q", kw)
 			}
@@ -564,6 +581,13 @@ type Env struct {
 	pkg  *types.Package
 	fr   *Frame
 	in   string // description for errors
+	// assuming: the clause is being assumed (callee ensures at a call site, invariant at a loop head).
+	// Range equalities (bytes_eq, bbytes_eq, bzero) are then applied constructively to the state
+	// (the constrained region is defined as a copy of the other side) instead of being instantiated
+	// at one skolem index; guard is the conjunction of enclosing implication antecedents.
+	assuming bool
+	guard    *Term
+	negated  bool
 }
 
 func (e *Env) bind(name string, v Value, t types.Type) { e.vars[name] = tv{v, t} }
@@ -625,6 +649,20 @@ func (ex *Exec) evalBoolClause(st *State, env *Env, c *Clause) *Term {
 	return b.T
 }
 
+// assumeClause adds a clause to the path condition, applying range equalities constructively.
+func (ex *Exec) assumeClause(st *State, env *Env, c *Clause) {
+	env = env.withState(st)
+	env.in = c.Text
+	env.assuming = true
+	env.guard = True
+	r := env.eval(c.Expr)
+	b, ok := r.v.(VBool)
+	if !ok {
+		evalFail("clause %q is not boolean", c.Text)
+	}
+	st.assume(b.T)
+}
+
 func (ex *Exec) evalIntClause(st *State, env *Env, c *Clause) *Term {
 	env = env.withState(st)
 	env.in = c.Text
@@ -675,7 +713,14 @@ func (e *Env) eval(x ast.Expr) tv {
 	case *ast.Ident:
 		return e.ident(n.Name)
 	case *ast.UnaryExpr:
-		a := e.eval(n.X)
+		ev := e
+		if n.Op == token.NOT {
+			c := *e
+			c.assuming = false
+			c.negated = !e.negated
+			ev = &c
+		}
+		a := ev.eval(n.X)
 		switch n.Op {
 		case token.NOT:
 			return tv{VBool{Not(a.v.(VBool).T)}, a.t}
@@ -804,8 +849,15 @@ func unify(a, b tv) (tv, tv) {
 
 func (e *Env) binary(n *ast.BinaryExpr) tv {
 	if n.Op == token.LAND || n.Op == token.LOR {
-		a := e.eval(n.X)
-		b := e.eval(n.Y)
+		ev := e
+		if n.Op == token.LOR && e.assuming {
+			c := *e
+			c.assuming = false
+			c.negated = true
+			ev = &c
+		}
+		a := ev.eval(n.X)
+		b := ev.eval(n.Y)
 		at, ok1 := a.v.(VBool)
 		bt, ok2 := b.v.(VBool)
 		if !ok1 || !ok2 {
@@ -907,6 +959,18 @@ func (e *Env) field(a tv, name string) tv {
 	fld, ok := obj.(*types.Var)
 	if !ok || fld == nil {
 		// try without package restriction for unexported fields of other repo packages
+		if fld == nil {
+			var bt types.Type = a.t
+			if pt, ok := bt.Underlying().(*types.Pointer); ok {
+				bt = pt.Elem()
+			}
+			if nt, ok := bt.(*types.Named); ok && nt.Obj().Pkg() != nil {
+				obj, index, _ = types.LookupFieldOrMethod(a.t, true, nt.Obj().Pkg(), name)
+				if f2, ok2 := obj.(*types.Var); ok2 {
+					fld = f2
+				}
+			}
+		}
 		if fld == nil {
 			for _, sp := range e.ex.L.SSAPkgs {
 				obj, index, _ = types.LookupFieldOrMethod(a.t, true, sp.Pkg, name)
@@ -1055,7 +1119,13 @@ func (e *Env) callExpr(n *ast.CallExpr) tv {
 			o.old = nil
 			return o.eval(n.Args[0])
 		case "imp":
-			return tv{VBool{Implies(e.boolArg(n.Args[0]), e.boolArg(n.Args[1]))}, types.Typ[types.Bool]}
+			a := e.boolArg(n.Args[0])
+			if e.assuming {
+				sub := *e
+				sub.guard = And(e.guard, a)
+				return tv{VBool{Implies(a, sub.boolArg(n.Args[1]))}, types.Typ[types.Bool]}
+			}
+			return tv{VBool{Implies(a, e.boolArg(n.Args[1]))}, types.Typ[types.Bool]}
 		case "ite":
 			c := e.boolArg(n.Args[0])
 			a := e.eval(n.Args[1])
@@ -1138,6 +1208,45 @@ func (e *Env) callExpr(n *ast.CallExpr) tv {
 			return tv{VInt{Ite(lt, a.v.(VInt).T, b.v.(VInt).T)}, a.t}
 		case "sum":
 			return e.sumExpr(n)
+		case "bbytes_eq", "bzero":
+			return e.bufBytesEq(id.Name, n)
+		case "sbytes_eq":
+			// sbytes_eq(slice, soff, buf, at, n): like bbytes_eq, but when assumed the slice is the defined side
+			if e.assuming && !e.negated {
+				s, ok := e.eval(n.Args[0]).v.(VSlice)
+				if !ok {
+					evalFail("sbytes_eq: first argument is not a slice in %q", e.in)
+				}
+				so := e.intArg(n.Args[1])
+				mem, off, _ := e.bufView(e.eval(n.Args[2]))
+				at := e.intArg(n.Args[3])
+				ln := Ite(e.guard, e.intArg(n.Args[4]), Const(64, 0))
+				if s.Obj != 0 {
+					o := *e.st.heap[s.Obj]
+					o.Mem = o.Mem.Copy(Add(s.Off, so), mem, Add(off, at), ln)
+					e.st.heap[s.Obj] = &o
+				}
+				return tv{VBool{True}, types.Typ[types.Bool]}
+			}
+			swapped := &ast.CallExpr{Fun: n.Fun, Args: []ast.Expr{n.Args[2], n.Args[3], n.Args[0], n.Args[1], n.Args[4]}}
+			return e.bufBytesEq("bbytes_eq", swapped)
+		case "blen":
+			_, _, ln := e.bufView(e.eval(n.Args[0]))
+			return tv{VInt{ln}, types.Typ[types.Int]}
+		case "bbyte", "bbe16", "bbe32", "bbe64":
+			mem, off, _ := e.bufView(e.eval(n.Args[0]))
+			at := e.intArg(n.Args[1])
+			nb := map[string]int{"bbyte": 1, "bbe16": 2, "bbe32": 4, "bbe64": 8}[id.Name]
+			var t *Term
+			for k := 0; k < nb; k++ {
+				b := mem.Read(Add(off, Add(at, Const(64, uint64(k)))))
+				if t == nil {
+					t = b
+				} else {
+					t = Concat(t, b)
+				}
+			}
+			return tv{VInt{t}, map[int]types.Type{1: types.Typ[types.Uint8], 2: types.Typ[types.Uint16], 4: types.Typ[types.Uint32], 8: types.Typ[types.Uint64]}[nb]}
 		case "bytes_eq":
 			// bytes_eq(a, aoff, b, boff, n): checked at a skolem index
 			return e.bytesEq(n)
@@ -1331,6 +1440,19 @@ func (e *Env) bytesEq(n *ast.CallExpr) tv {
 	ao := e.intArg(n.Args[1])
 	bo := e.intArg(n.Args[3])
 	ln := e.intArg(n.Args[4])
+	if e.negated {
+		evalFail("range equality under negation/disjunction in %q", e.in)
+	}
+	if e.assuming {
+		if a.Obj != 0 {
+			bmem, boff, _, _ := e.ex.bytesOf(e.st, b)
+			n2 := Ite(e.guard, ln, Const(64, 0))
+			o := *e.st.heap[a.Obj]
+			o.Mem = o.Mem.Copy(Add(a.Off, ao), bmem, Add(boff, bo), n2)
+			e.st.heap[a.Obj] = &o
+		}
+		return tv{VBool{True}, types.Typ[types.Bool]}
+	}
 	if ln.IsConst() && ln.Val <= 64 {
 		r := True
 		for k := uint64(0); k < ln.Val; k++ {
@@ -1426,4 +1548,132 @@ func (e *Env) evalLocOrValue(x ast.Expr) (VPtr, types.Type) {
 		}
 	}
 	return loc, t
+}
+
+
+// bufView: contents of a bytes.Buffer (given as *bytes.Buffer, bytes.Buffer, or a struct embedding one,
+// e.g. util.Buffer / *util.Buffer): byte memory, absolute offset of content byte 0, content length.
+func (e *Env) bufView(a tv) (*ByteMem, *Term, *Term) {
+	v, t := a.v, a.t
+	for i := 0; i < 4; i++ {
+		if t == nil {
+			break
+		}
+		if pt, ok := t.Underlying().(*types.Pointer); ok {
+			p, ok2 := v.(VPtr)
+			if !ok2 || p.Obj <= 0 {
+				evalFail("buffer expression is nil/unmaterialised in %q", e.in)
+			}
+			v, t = e.st.loadPtr(p), pt.Elem()
+			continue
+		}
+		if isBytesBuffer(t) {
+			sv := v.(VStruct)
+			buf := sv.F[bufferFieldIdx(t, "buf")].(VSlice)
+			off := sv.F[bufferFieldIdx(t, "off")].(VInt).T
+			var mem *ByteMem = bmZeros
+			if buf.Obj != 0 {
+				mem = e.st.heap[buf.Obj].Mem
+			}
+			return mem, Add(buf.Off, off), Sub(buf.Len, off)
+		}
+		if st, ok := t.Underlying().(*types.Struct); ok && st.NumFields() > 0 && st.Field(0).Embedded() {
+			v, t = v.(VStruct).F[0], st.Field(0).Type()
+			continue
+		}
+		break
+	}
+	evalFail("not a bytes.Buffer in %q", e.in)
+	return nil, nil, nil
+}
+
+// bufPtr: location of the bytes.Buffer struct denoted by an expression (same shapes as bufView).
+func (e *Env) bufPtr(a tv) (VPtr, types.Type) {
+	v, t := a.v, a.t
+	var loc VPtr
+	have := false
+	for i := 0; i < 4; i++ {
+		if pt, ok := t.Underlying().(*types.Pointer); ok {
+			p, ok2 := v.(VPtr)
+			if !ok2 || p.Obj <= 0 {
+				evalFail("buffer expression is nil/unmaterialised in %q", e.in)
+			}
+			loc, have = p, true
+			v, t = e.st.loadPtr(p), pt.Elem()
+			continue
+		}
+		if isBytesBuffer(t) {
+			if !have {
+				evalFail("buffer expression is not addressable in %q", e.in)
+			}
+			return loc, t
+		}
+		if st, ok := t.Underlying().(*types.Struct); ok && st.NumFields() > 0 && st.Field(0).Embedded() && have {
+			loc = VPtr{Obj: loc.Obj, Global: loc.Global, Path: append(append([]PathEl{}, loc.Path...), PathEl{Field: 0})}
+			v, t = v.(VStruct).F[0], st.Field(0).Type()
+			continue
+		}
+		break
+	}
+	evalFail("not a bytes.Buffer location in %q", e.in)
+	return VPtr{}, nil
+}
+
+
+// bbytes_eq(buf, at, slice, soff, n): n content bytes of the buffer from position at equal slice[soff:soff+n].
+// bzero(buf, from, to): content bytes in [from, to) are zero. Both are checked at a skolem index (use positively).
+func (e *Env) bufBytesEq(name string, n *ast.CallExpr) tv {
+	if e.negated {
+		evalFail("range equality under negation/disjunction in %q", e.in)
+	}
+	if e.assuming {
+		return e.bufBytesAssume(name, n)
+	}
+	mem, off, _ := e.bufView(e.eval(n.Args[0]))
+	i := Fresh("skolem_b", BV(64))
+	if name == "bzero" {
+		from, to := e.intArg(n.Args[1]), e.intArg(n.Args[2])
+		r := Implies(And(ULe(from, i), ULt(i, to)), Eq(mem.Read(Add(off, i)), Const(8, 0)))
+		return tv{VBool{r}, types.Typ[types.Bool]}
+	}
+	at := e.intArg(n.Args[1])
+	s, ok := e.eval(n.Args[2]).v.(VSlice)
+	if !ok {
+		evalFail("bbytes_eq: third argument is not a slice in %q", e.in)
+	}
+	so := e.intArg(n.Args[3])
+	ln := e.intArg(n.Args[4])
+	r := Implies(ULt(i, ln), Eq(mem.Read(Add(off, Add(at, i))), e.readByte(s, Add(so, i))))
+	return tv{VBool{r}, types.Typ[types.Bool]}
+}
+
+
+// bufBytesAssume applies bbytes_eq / bzero constructively to the buffer's backing object.
+func (e *Env) bufBytesAssume(name string, n *ast.CallExpr) tv {
+	a := e.eval(n.Args[0])
+	_, off, _ := e.bufView(a)
+	loc, bt := e.bufPtr(a)
+	sv := e.st.loadPtr(loc).(VStruct)
+	buf := sv.F[bufferFieldIdx(bt, "buf")].(VSlice)
+	if buf.Obj == 0 {
+		return tv{VBool{True}, types.Typ[types.Bool]}
+	}
+	o := *e.st.heap[buf.Obj]
+	if name == "bzero" {
+		from, to := e.intArg(n.Args[1]), e.intArg(n.Args[2])
+		cnt := Ite(And(e.guard, ULe(from, to)), Sub(to, from), Const(64, 0))
+		o.Mem = o.Mem.Copy(Add(off, from), bmZeros, Const(64, 0), cnt)
+	} else {
+		at := e.intArg(n.Args[1])
+		s, ok := e.eval(n.Args[2]).v.(VSlice)
+		if !ok {
+			evalFail("bbytes_eq: third argument is not a slice in %q", e.in)
+		}
+		so := e.intArg(n.Args[3])
+		ln := Ite(e.guard, e.intArg(n.Args[4]), Const(64, 0))
+		smem, soff, _, _ := e.ex.bytesOf(e.st, s)
+		o.Mem = o.Mem.Copy(Add(off, at), smem, Add(soff, so), ln)
+	}
+	e.st.heap[buf.Obj] = &o
+	return tv{VBool{True}, types.Typ[types.Bool]}
 }
